@@ -1,12 +1,14 @@
-(* C04 — BMS reading.  Property theorems only: each closed by [exact] from Proofs/BMSProofs.v, table obligations
-   and concrete witnesses by vm_compute.
-   The whole-file statement  "bms_read of a well-formed text is the chart bms_denote assigns to it"  is FALSE of the
-   faithful model: two machine-checked witnesses below (both reproduced on the implementation = known findings).
-   Under the two guards (lines_in_order, tempo_on_grid) it is checked on every run by the correspondence + oracle
-   (Corr/RunC04.v) but NOT proved here: that theorem (bms_read_denotes) is open. *)
+(* C04 — BMS reading.  Property theorems only: each closed by [exact] from Proofs/BMSProofs.v / BMSDenoteProofs.v,
+   table obligations and concrete witnesses by vm_compute.
+   Whole file: C04_bms_read_denotes (hits and holds = the objects the format assigns, lane by lane in time order, at the
+   integrated time, whatever the order of the lines) on the decidable domain read_theorem_domain, whose clause (i)
+   -- the reader's line loop collects exactly the format's object list -- is evaluated by the runner on every generated
+   text and NOT proved from wf_bms_lines (the text-level parsing refinement is open).  Without the grid guard the
+   statement is false: C04_read_denotes_refuted_tempo_grid (known finding tempo-offgrid-resnap).
+   C04_bms_read_header: header fields retained, whole file, proved outright. *)
 From Coq Require Import ZArith QArith Qround Qabs List Bool.
 From RV Require Import Base.PyNum Timing.Snapper Timing.Snap Timing.TimingMap Timing.Reseat Timing.Integrate
-  Formats.BMSText Formats.BMS Formats.BMSSpec Generated.Tables Proofs.BMSProofs.
+  Formats.BMSText Formats.BMS Formats.BMSSpec Timing.Domain Generated.Tables Proofs.SnapperProofs Proofs.BMSProofs Proofs.BMSDenoteProofs.
 Import ListNotations.
 Open Scope Z_scope.
 
@@ -66,14 +68,48 @@ Theorem C04_bms_read_header : forall (tb : list Q) (cfg : layout) (mk : Z) (l1 l
   /\ (is_exbpm_key k = false -> is_wav_key k = false -> text_eqb K_BPM k = false -> In (k, v) (m_misc (c_meta c))).
 Proof. exact bms_read_header. Qed.
 
+(* ---- bms_read_denotes.  For every layout, every MAX_KEYS and every text in read_theorem_domain, lines in ANY order and
+   possibly several lines per measure and channel: whenever BMSMap.read returns a chart, its hits and holds are, lane
+   by lane (columns ascending, each lane in time order), exactly the objects the format assigns -- each visible object a
+   hit, or, when closed by the LNOBJ marker, a hold whose head is the preceding object of that lane IN TIME -- in the
+   lane's column, at the time obtained by integrating the tempo script of #BPM and channels 03/08, carrying WAV[id].
+   (Uses the C10 theorem offsets_on_grid_b; the snapper table obligation is C10's, re-checked here.) ---- *)
+Theorem C04_table_ok : table_ok (1 # 96) tbl = true.
+Proof. vm_compute. reflexivity. Qed.
+Theorem C04_bms_read_denotes : forall (cfg : layout) (mk : Z) (lines : list text) (c : bms_chart),
+  read_theorem_domain tbl cfg mk lines = true ->
+  bms_read tbl cfg mk lines = Some c ->
+  let sobjs := flat_map objs_of_line lines in
+  let meta := c_meta c in
+  exists tempos Hs Ls,
+    tempo_objs (table_of S_BPM (headers_of lines)) sobjs = Some tempos
+    /\ lanes_denote (m_lnobj meta) cfg sobjs (map Z.of_nat (seq 0 (Z.to_nat mk))) = Some (Hs, Ls)
+    /\ let t (o : sobj) := time_of 0 (script_of (m_bpm meta) tempos) (snap_of o) in
+       Forall2 (fun co h => h_col h = fst co /\ (h_off h == t (snd co))%Q
+                            /\ h_sample h = smp_of (m_samples meta) (o_id (snd co))) Hs (c_hits c)
+       /\ Forall2 (fun cl l => ho_col l = fst cl /\ (ho_off l == t (fst (snd cl)))%Q
+                               /\ (ho_len l == t (snd (snd cl)) - t (fst (snd cl)))%Q
+                               /\ ho_sample l = smp_of (m_samples meta) (o_id (fst (snd cl)))) Ls (c_holds c).
+Proof. exact (bms_read_denotes tbl C04_table_ok). Qed.
+(* its ingredients, each for all inputs: the reader's stack pairing = the reference pairing on a lane in time order;
+   under the origin guard the reader's tempo list (measure-0 override + stable sort) is the reference script *)
+Theorem C04_ln_pairing_refines : forall lnobj samples lay sobjs cols H L,
+  lanes_denote lnobj lay sobjs (map Z.of_nat cols) = Some (H, L) ->
+  pair_lanes lnobj samples (lane_lobjs lay sobjs) cols = Some (map (hitp_of' samples) H, map (holdp_of' samples) L).
+Proof. exact pair_lanes_refines. Qed.
+Theorem C04_tempo_script : forall (bpm0 : Q) (tempos : list bcs),
+  forallb nonneg_snap tempos = true -> origin_tempo_first tempos = true ->
+  override_sort (origin_bcs bpm0 :: tempos) = script_of bpm0 tempos.
+Proof. exact reader_script_is_script. Qed.
+
 (* ---- the whole-file statement is refuted without the grid guard: a tempo object whose distance to the previous one is off the 1/96 grid (subdivision 99) moves later notes ---- *)
 Definition w_tempo : list text := [(tx[L[35;66;80;77;32;49;50;48]])%Z; (tx[L[35;48;48;48;48;51;58;48;48;55;56];R 48 194])%Z; (tx[L[35;48;48;49;49;49;58;48;49]])%Z].
 Theorem C04_read_denotes_refuted_tempo_grid :
-  exists lines c, wf_bms_lines lay_BMS lines = true
+  exists lines c, wf_bms_lines lay_BMS lines = true /\ read_theorem_domain tbl lay_BMS Tables.bms.max_keys lines = false
                   /\ bms_read tbl lay_BMS Tables.bms.max_keys lines = Some c
                   /\ c04_specb 0 lay_BMS lines c = false.
 Proof.
-  exists w_tempo. eexists. split; [vm_compute; reflexivity|].
+  exists w_tempo. eexists. split; [vm_compute; reflexivity|]. split; [vm_compute; reflexivity|].
   split; [vm_compute; reflexivity|]. vm_compute. reflexivity.
 Qed.
 
@@ -81,7 +117,7 @@ Qed.
    tail of measure 1 closes the head of measure 0, the object of measure 2 stays a hit ---- *)
 Definition w_order : list text := [(tx[L[35;66;80;77;32;49;50;48]])%Z; (tx[L[35;76;78;79;66;74;32;90;90]])%Z; (tx[L[35;48;48;50;49;49;58;48;49]])%Z; (tx[L[35;48;48;49;49;49;58;90;90]])%Z; (tx[L[35;48;48;48;49;49;58;48;49]])%Z].
 Example C04_out_of_order_lines_ok :
-  wf_bms_lines lay_BMS w_order && tempo_on_grid tbl w_order
+  wf_bms_lines lay_BMS w_order && read_guards tbl w_order && read_theorem_domain tbl lay_BMS Tables.bms.max_keys w_order
   && match bms_read tbl lay_BMS Tables.bms.max_keys w_order with
      | Some c => c04_specb 0 lay_BMS w_order c
                  && match c_holds c with [h] => Qeq_bool (ho_off h) 0 && Qeq_bool (ho_len h) 2000 | _ => false end
@@ -93,7 +129,7 @@ Proof. vm_compute. reflexivity. Qed.
    changes inside a measure, an LN) is read to exactly the chart it denotes ---- *)
 Definition w_good : list text := [(tx[L[35;84;73;84;76;69;32;120;32;121]])%Z; (tx[L[35;65;82;84;73;83;84;32;122]])%Z; (tx[L[35;80;76;65;89;76;69;86;69;76;32;55]])%Z; (tx[L[35;71;69;78;82;69;32;103]])%Z; (tx[L[35;66;80;77;32;49;50;48]])%Z; (tx[L[35;66;80;77;48;49;32;49;51;51;46;53]])%Z; (tx[L[35;76;78;79;66;74;32;90;90]])%Z; (tx[L[35;87;65;86;48;49;32;97;46;119;97;118]])%Z; (tx[L[35;48;48;48;49;49;58;48;49]])%Z; (tx[L[35;48;48;48;49;49;58;48;48;48;48;48;49]])%Z; (tx[L[35;48;48;49;48;51;58;48;48;55;56]])%Z; (tx[L[35;48;48;49;49;49;58;48;48;90;90]])%Z; (tx[L[35;48;48;49;49;50;58;48;50]])%Z; (tx[L[35;48;48;50;48;56;58;48;48;48;49]])%Z; (tx[L[35;48;48;51;49;49;58;48;49]])%Z].
 Example C04_nonvacuous :
-  wf_bms_lines lay_BMS w_good && tempo_on_grid tbl w_good
+  wf_bms_lines lay_BMS w_good && read_guards tbl w_good && read_theorem_domain tbl lay_BMS Tables.bms.max_keys w_good
   && match bms_read tbl lay_BMS Tables.bms.max_keys w_good with
      | Some c => c04_specb 0 lay_BMS w_good c && (length (c_hits c) =? 3)%nat && (length (c_holds c) =? 1)%nat
      | None => false
